@@ -45,8 +45,13 @@ def run_case(case, col=None):
     s = case["shape"]
     v = S.unjson(s, case["value"])
     steps, final = case["steps"], case["final"]
-    enc = S.encode(s, v)
     out = []
+    try:
+        enc = S.encode(s, v)
+    except Exception:  # noqa  (the reference codec refuses the value, e.g. an encoding longer than a uint16 offset allows)
+        if col:
+            col.cls("discard:reference-codec-refuses-value")
+        return out
     if len(enc) > 1500:
         if col:
             col.cls("discard:encoding-too-long")
